@@ -103,7 +103,20 @@ fn opt_number(r: Option<Number>) -> J {
 
 /// evaluate query text through the public API, then render in every output form
 fn run_query(ctx: &mut rink_core::Context, text: &str) -> J {
-    let ev = catch_unwind(AssertUnwindSafe(|| rink_core::eval(ctx, text)));
+    run_query_clock(ctx, text, false)
+}
+
+/// `fixed_clock`: evaluate without `Context::update_time` (the request has set the clock)
+fn run_query_clock(ctx: &mut rink_core::Context, text: &str, fixed_clock: bool) -> J {
+    let ev = catch_unwind(AssertUnwindSafe(|| {
+        if fixed_clock {
+            let mut iter = rink_core::parsing::text_query::TokenIterator::new(text.trim()).peekable();
+            let expr = rink_core::parsing::text_query::parse_query(&mut iter);
+            ctx.eval_query(&expr)
+        } else {
+            rink_core::eval(ctx, text)
+        }
+    }));
     let res = match ev {
         Ok(r) => r,
         Err(e) => return json!({"outcome": "panic", "stage": "eval", "panic": panic_msg(e)}),
@@ -174,6 +187,12 @@ fn handle(ctx: &mut rink_core::Context, req: &J) -> J {
             if let Some(flag) = req.get("save_previous_result").and_then(|x| x.as_bool()) {
                 ctx.save_previous_result = flag;
             }
+            if let Some(now) = req.get("now").and_then(|x| x.as_str()) {
+                // the context's clock (eval() would overwrite it, so such requests go through eval_query below)
+                if let Ok(t) = chrono::DateTime::parse_from_rfc3339(now) {
+                    ctx.set_time(t.with_timezone(&chrono::Local));
+                }
+            }
             let humanize_before = ctx.use_humanize;
             if let Some(flag) = req.get("use_humanize").and_then(|x| x.as_bool()) {
                 ctx.use_humanize = flag;
@@ -190,7 +209,7 @@ fn handle(ctx: &mut rink_core::Context, req: &J) -> J {
                 }
             }
             let _ = last;
-            let mut r = run_query(ctx, req["text"].as_str().unwrap());
+            let mut r = run_query_clock(ctx, req["text"].as_str().unwrap(), req.get("now").is_some());
             if let Some(o) = r.as_object_mut() {
                 o.insert(
                     "previous_result".into(),
